@@ -8,7 +8,7 @@
      has exactly one allocating reservation, and that reservation does not start after any reservation touching the bucket.
    Part 2 (all interleavings): disjoint consecutive ranges, write-once buffer pointers, every position constructed exactly
      once into an allocated buffer with the tag of its reservation, final size = total growth, spin-waits always have a
-     committed, non-blocked allocator. *)
+     committed, non-blocked allocator, and every call returns under every fair schedule. *)
 From Coq Require Import ZArith List Bool.
 From DV Require Import Base.MachInt Base.Sched Model.CVecModel Model.CVecGrowModel Proofs.C33Proofs.
 Import ListNotations.
@@ -70,6 +70,14 @@ Theorem C33_pointers_stable : forall strat shift, 0 <= shift -> forall progs, Fo
 Proof. exact grow_pointers_stable. Qed.
 Print Assumptions C33_pointers_stable.
 
+(* consequence used by the range variant: a buffer pointer that is null when tryAssignBuffer stores it was null when the
+   sizing loop of the same call looked at it, so the block allocated by that call has room for it *)
+Theorem C33_null_backwards : forall strat shift, 0 <= shift -> forall progs, Forall (Forall wf_op) progs ->
+  forall s s2 k, reach (gstep strat shift) (init progs) s -> reach (gstep strat shift) s s2 ->
+  lookup k (g_bufs (sh s2)) = 0 -> lookup k (g_bufs (sh s)) = 0.
+Proof. exact grow_null_backwards. Qed.
+Print Assumptions C33_null_backwards.
+
 (* no_overwrite: no position is constructed twice; every construction goes into a bucket whose buffer is allocated at that
    moment and writes the tag its (unique) covering reservation assigns to that position *)
 Theorem C33_no_overwrite : forall strat shift, 0 <= shift -> forall progs, Forall (Forall wf_op) progs ->
@@ -94,31 +102,34 @@ Theorem C33_final_size : forall strat shift progs s, Forall (Forall no_growto) p
 Proof. exact grow_final_size. Qed.
 Print Assumptions C33_final_size.
 
-(* The spin-wait.  Full statement one would like: under every fair schedule every call returns.  Proved here is the safety
-   core of that argument (missing for the full statement: the well-founded descent along a fair infinite schedule, i.e.
-   fairness of the OS scheduler is assumed and the induction over it is not formalised):
-   a thread spinning on a null buffer pointer is never alone -- another thread whose NEXT step is a non-blocking load or
-   store of its allocation phase is committed to storing exactly that pointer -- and hence some thread can always take a
-   step that is not a failed spin iteration. *)
-Definition C33_termination_full_statement : Prop :=
-  forall strat shift progs (pick : nat -> nat), 0 <= shift -> Forall (Forall wf_op) progs ->
-    (forall t n, (t < length progs)%nat -> exists n', (n <= n')%nat /\ pick n' = t) ->          (* fairness *)
-    exists n s, finished s = true /\
-      s = nat_rect (fun _ => state) (init progs)
-            (fun k sk => match gstep strat shift sk (pick k) [] with Some (s', _, _) => s' | None => sk end) n.
-
-Theorem C33_wait_progress_partial : forall strat shift, 0 <= shift -> forall progs, Forall (Forall wf_op) progs ->
+(* The spin-wait.  Safety core: a thread spinning on a null buffer pointer is never alone -- another thread whose NEXT step
+   is a non-blocking load or store of its allocation phase is committed to storing exactly that pointer ... *)
+Theorem C33_wait_progress : forall strat shift, 0 <= shift -> forall progs, Forall (Forall wf_op) progs ->
   forall s t rng k rest, reach (gstep strat shift) (init progs) s ->
   agof s t = MWait rng k :: rest -> lookup k (g_bufs (sh s)) = 0 ->
   exists t' m' rest', t' <> t /\ agof s t' = m' :: rest' /\ (rank m' = 1 \/ rank m' = 2)%nat /\ pendingA k (agof s t').
 Proof. exact grow_wait_progress. Qed.
-Print Assumptions C33_wait_progress_partial.
+Print Assumptions C33_wait_progress.
 
+(* ... hence some thread can always take a step that is not a failed spin iteration ... *)
 Theorem C33_some_thread_progresses : forall strat shift, 0 <= shift -> forall progs, Forall (Forall wf_op) progs ->
   forall s, reach (gstep strat shift) (init progs) s -> finished s = false ->
   exists t m rest, agof s t = m :: rest /\ (forall rng k, m = MWait rng k -> lookup k (g_bufs (sh s)) <> 0).
 Proof. exact grow_some_thread_progresses. Qed.
 Print Assumptions C33_some_thread_progresses.
+
+(* ... and therefore every growth call returns under EVERY FAIR schedule: [pick n] is the thread scheduled at time n (threads
+   that have returned are skipped), fairness = every thread is scheduled again and again; [sigma] is the resulting run.
+   (Every step other than a failed spin iteration decreases a lexicographic measure; a failed spin leaves the state unchanged.) *)
+Theorem C33_terminates_under_fairness : forall strat shift, 0 <= shift -> forall progs, Forall (Forall wf_op) progs ->
+  forall pick : nat -> nat, (forall t n, (t < length progs)%nat -> exists n', (n <= n')%nat /\ pick n' = t) ->
+  exists n, finished (sigma strat shift progs pick n) = true.
+Proof. exact grow_terminates. Qed.
+Print Assumptions C33_terminates_under_fairness.
+
+Theorem C33_fair_run_reach : forall strat shift progs pick n, reach (gstep strat shift) (init progs) (sigma strat shift progs pick n).
+Proof. exact sigma_reach. Qed.
+Print Assumptions C33_fair_run_reach.
 
 (* the whole inductive invariant (Proofs/C33Proofs.v, Record Inv) holds in every reachable state *)
 Theorem C33_invariant : forall strat shift, 0 <= shift -> forall progs s, Forall (Forall wf_op) progs ->
